@@ -815,9 +815,10 @@ fn parse_content(value: &RawValue) -> Result<String, nom::Err<nom::error::Error<
 }
 
 pub(crate) fn parse_rules(text: &str) -> IResult<&str, Vec<Declaration>> {
+    // Empty declarations (as in "color: red;;") are allowed.
     separated_list0(
         tuple((tag(";"), skip_optional_whitespace)),
-        parse_declaration,
+        map(opt(parse_declaration), Option::flatten),
     )(text)
     .map(|(rest, v)| (rest, v.into_iter().flatten().collect()))
 }
